@@ -193,3 +193,51 @@ def atom_unary_term(fn):
             if f.startswith(p):
                 return f"{f[len(p):]}(V)"
     return None
+
+
+# ---- lookup loops -------------------------------------------------------
+def lookup_loop(loop):
+    """Abstraction of a first-match lookup loop over a collection:
+
+        for i in range(len(C)):            if C[i].K == V: <found...>; break
+        for i, e in enumerate(C):          if e.K != V: continue
+        for e in C:                            <found...>; break
+
+    -> dict(collection=<src of C>, elem=<src of the element expression>, test=<positive test src>,
+            found=[statements run on the first match], orelse=[...]) or None."""
+    import ast as _ast
+    from ..model import norm as _norm
+    if not isinstance(loop, _ast.For):
+        return None
+    it, tg = loop.iter, loop.target
+    coll = elem = None
+    if isinstance(it, _ast.Call) and _norm(it.func) == "range" and len(it.args) == 1 and isinstance(it.args[0], _ast.Call) \
+            and _norm(it.args[0].func) == "len" and isinstance(tg, _ast.Name):
+        coll = _norm(it.args[0].args[0])
+        elem = f"{coll}[{tg.id}]"
+    elif isinstance(it, _ast.Call) and _norm(it.func) == "enumerate" and len(it.args) == 1 and isinstance(tg, _ast.Tuple) and len(tg.elts) == 2 \
+            and all(isinstance(e, _ast.Name) for e in tg.elts):
+        coll, elem = _norm(it.args[0]), tg.elts[1].id
+    elif isinstance(tg, _ast.Name) and not isinstance(it, _ast.Call):
+        coll, elem = _norm(it), tg.id
+    if coll is None:
+        return None
+    body = [s for s in loop.body if not (isinstance(s, _ast.Expr) and isinstance(s.value, _ast.Constant))]
+    if not body or not isinstance(body[0], _ast.If):
+        return None
+    first = body[0]
+    t = first.test
+    if len(first.body) == 1 and isinstance(first.body[0], _ast.Continue) and not first.orelse:
+        # negative guard: the rest of the body is the found branch
+        if isinstance(t, _ast.Compare) and len(t.ops) == 1 and isinstance(t.ops[0], _ast.NotEq):
+            pos = f"{_norm(t.left)} == {_norm(t.comparators[0])}"
+        elif isinstance(t, _ast.UnaryOp) and isinstance(t.op, _ast.Not):
+            pos = _norm(t.operand)
+        else:
+            return None
+        found = body[1:]
+    elif len(body) == 1 and not first.orelse:
+        pos, found = _norm(t), first.body
+    else:
+        return None
+    return {"collection": coll, "elem": elem, "test": pos, "found": found, "orelse": loop.orelse, "loop": loop}
